@@ -37,6 +37,20 @@ int __real_posix_memalign(void**, size_t, size_t);
 void* __real_aligned_alloc(size_t, size_t);
 void* __real_ZSTD_createDCtx(void);
 size_t __real_ZSTD_decompressDCtx(void*, void*, size_t, const void*, size_t);
+int __real_fileno(FILE*);
+int __real_fsync(int);
+int __real_fdatasync(int);
+int __real_posix_fadvise(int, off_t, off_t, int);
+ssize_t __real_read(int, void*, size_t);
+ssize_t __real_pread(int, void*, size_t, off_t);
+ssize_t __real_write(int, const void*, size_t);
+off_t __real_lseek(int, off_t, int);
+int __real_stat(const char*, struct stat*);
+int __real_access(const char*, int);
+int __real_rename(const char*, const char*);
+int __real_unlink(const char*);
+int __real_fseeko(FILE*, off_t, int);
+off_t __real_ftello(FILE*);
 // guarded hooks in /repo
 void carquet_verif_set_cpu_cap(int level);
 void carquet_verif_reset_detect(void);
@@ -202,7 +216,10 @@ void disk_put(const std::string& path, const std::vector<uint8_t>& bytes) {
 // ------------------------------------------------------------------ mmap registry
 struct MapRec { uint8_t* base; size_t total; uint8_t* ptr; size_t len; bool live; };
 static std::vector<MapRec> g_maps;
-struct FdRec { std::string path; };
+// a simulated descriptor: from open() on a simulated path (reads go to the disk image through the same fault plan as
+// stream reads; a descriptor opened for writing owns an unbuffered sink stream, so raw write() meets the same sink
+// faults as fwrite), or from fileno() on a simulated stream (bound = that stream; not counted as an open descriptor)
+struct FdRec { std::string path; uint64_t pos = 0; FILE* bound = nullptr; FILE* wstream = nullptr; };
 static std::map<int, FdRec> g_fds;
 static int g_next_fd = 1000000;
 
@@ -415,6 +432,10 @@ __attribute__((no_sanitize("address"))) void __sanitizer_cov_trace_pc(void) {
     if (__builtin_expect(g_ticks >= g_next_event_tick, 0)) tick_slow();
 }
 
+static void unbind_stream_fds(FILE* f) {
+    for (auto it = g_fds.begin(); it != g_fds.end();) { if (it->second.bound == f) it = g_fds.erase(it); else ++it; }
+}
+
 FILE* __wrap_fopen(const char* path, const char* mode) {
     if (!is_sim_path(path)) return __real_fopen(path, mode);
     yield_point(SITE_IO);
@@ -441,6 +462,7 @@ int __wrap_fclose(FILE* f) {
     if (it == g_streams.end()) return __real_fclose(f);
     yield_point(SITE_IO);
     g_streams.erase(it); io.open_streams--;
+    unbind_stream_fds(f);
     io.fclose_calls++;
     io.in_flush++;
     int r = __real_fclose(f);
@@ -509,9 +531,13 @@ int __wrap_open(const char* path, int flags, ...) {
         return __real_open(path, flags, mode);
     }
     yield_point(SITE_IO);
+    bool wr = (flags & O_ACCMODE) != O_RDONLY;
+    if (wr && (flags & (O_CREAT | O_TRUNC))) { if ((flags & O_TRUNC) || !D.files.count(path)) D.files[path] = SimFile(); }
     if (!D.files.count(path)) { errno = ENOENT; L.ev("open", -1); return -1; }
     int fd = g_next_fd++;
-    g_fds[fd] = FdRec{path};
+    FdRec rec; rec.path = path;
+    if (wr) { rec.wstream = make_stream(path, true, 1, 0); if (!rec.wstream) { errno = ENOMEM; return -1; } if (flags & O_APPEND) __real_fseeko(rec.wstream, 0, SEEK_END); }
+    g_fds[fd] = rec;
     io.open_fds++;
     L.ev("open", 1);
     return fd;
@@ -520,9 +546,125 @@ int __wrap_open(const char* path, int flags, ...) {
 int __wrap_close(int fd) {
     auto it = g_fds.find(fd);
     if (it == g_fds.end()) return __real_close(fd);
+    int r = 0;
+    if (it->second.bound) { errno = EBADF; L.ev("close", -1); return -1; }     // closing the descriptor under a live stream
+    if (it->second.wstream) { FILE* w = it->second.wstream; it->second.wstream = nullptr; io.in_flush++; r = close_stream_real(w); io.in_flush--; }
     g_fds.erase(it); io.open_fds--;
-    L.ev("close", 0);
+    L.ev("close", r);
+    return r;
+}
+
+// ---- descriptor-level calls a correct refactoring might start to use (none is used by the pinned tree)
+int __wrap_fileno(FILE* f) {
+    auto st = g_streams.find(f);
+    if (st == g_streams.end()) return __real_fileno(f);
+    for (auto& kv : g_fds) if (kv.second.bound == f) return kv.first;
+    int fd = g_next_fd++;
+    FdRec r; r.path = st->second->path; r.bound = f;
+    g_fds[fd] = r;
+    L.ev("fileno", 1);
+    return fd;
+}
+int __wrap_fsync(int fd) {
+    if (!g_fds.count(fd)) return __real_fsync(fd);
+    yield_point(SITE_IO); io.fsyncs++; L.ev("fsync", 0);
     return 0;
+}
+int __wrap_fdatasync(int fd) {
+    if (!g_fds.count(fd)) return __real_fdatasync(fd);
+    yield_point(SITE_IO); io.fsyncs++; L.ev("fdatasync", 0);
+    return 0;
+}
+int __wrap_posix_fadvise(int fd, off_t off, off_t len, int advice) {
+    if (!g_fds.count(fd)) return __real_posix_fadvise(fd, off, len, advice);
+    return 0;
+}
+static ssize_t fd_read_at(FdRec& r, void* buf, size_t n, uint64_t pos) {
+    Cookie c; c.path = r.path; c.pos = pos; c.sink = false;
+    return ck_read(&c, (char*)buf, n);            // same numbered read faults (EIO, early EOF) as stream reads
+}
+ssize_t __wrap_read(int fd, void* buf, size_t n) {
+    auto it = g_fds.find(fd);
+    if (it == g_fds.end()) return __real_read(fd, buf, n);
+    yield_point(SITE_FREAD);
+    ssize_t k = fd_read_at(it->second, buf, n, it->second.pos);
+    if (k > 0) it->second.pos += (uint64_t)k;
+    return k;
+}
+ssize_t __wrap_pread(int fd, void* buf, size_t n, off_t off) {
+    auto it = g_fds.find(fd);
+    if (it == g_fds.end()) return __real_pread(fd, buf, n, off);
+    yield_point(SITE_FREAD);
+    if (off < 0) { errno = EINVAL; return -1; }
+    return fd_read_at(it->second, buf, n, (uint64_t)off);
+}
+ssize_t __wrap_write(int fd, const void* buf, size_t n) {
+    auto it = g_fds.find(fd);
+    if (it == g_fds.end()) return __real_write(fd, buf, n);
+    if (!it->second.wstream) { errno = EBADF; return -1; }
+    yield_point(SITE_IO);
+    size_t k = __real_fwrite(buf, 1, n, it->second.wstream);     // unbuffered: reaches ck_write at once
+    L.ev("write", (int64_t)n, (int64_t)k);
+    if (k == 0 && n) return -1;
+    return (ssize_t)k;
+}
+off_t __wrap_lseek(int fd, off_t off, int whence) {
+    auto it = g_fds.find(fd);
+    if (it == g_fds.end()) return __real_lseek(fd, off, whence);
+    if (it->second.wstream) { if (__real_fseeko(it->second.wstream, off, whence) != 0) return -1; return __real_ftello(it->second.wstream); }
+    auto f = D.files.find(it->second.path);
+    if (f == D.files.end()) { errno = EIO; return -1; }
+    int64_t base = whence == SEEK_SET ? 0 : whence == SEEK_CUR ? (int64_t)it->second.pos : (int64_t)f->second.data.size();
+    int64_t np = base + off;
+    if (np < 0) { errno = EINVAL; return -1; }
+    it->second.pos = (uint64_t)np;
+    L.ev("lseek", np);
+    return (off_t)np;
+}
+static int sim_stat(const char* path, struct stat* st) {
+    auto f = D.files.find(path);
+    if (f == D.files.end()) { errno = ENOENT; return -1; }
+    memset(st, 0, sizeof *st);
+    st->st_size = (off_t)f->second.data.size(); st->st_mode = S_IFREG | 0644; st->st_nlink = 1; st->st_blksize = 4096;
+    return 0;
+}
+int __wrap_stat(const char* path, struct stat* st) {
+    if (!is_sim_path(path)) return __real_stat(path, st);
+    return sim_stat(path, st);
+}
+int __wrap_access(const char* path, int mode) {
+    if (!is_sim_path(path)) return __real_access(path, mode);
+    if (!D.files.count(path)) { errno = ENOENT; return -1; }
+    return 0;
+}
+int __wrap_rename(const char* from, const char* to) {
+    if (!is_sim_path(from) && !is_sim_path(to)) return __real_rename(from, to);
+    if (!is_sim_path(from) || !is_sim_path(to)) { errno = EXDEV; return -1; }
+    auto f = D.files.find(from);
+    if (f == D.files.end()) { errno = ENOENT; return -1; }
+    SimFile moved = f->second; D.files.erase(f); D.files[to] = moved;
+    for (auto& kv : g_streams) if (kv.second->path == from) kv.second->path = to;      // open streams follow the inode
+    for (auto& kv : g_fds) if (kv.second.path == from) kv.second.path = to;
+    L.ev("rename", 0);
+    return 0;
+}
+int __wrap_unlink(const char* path) {
+    if (!is_sim_path(path)) return __real_unlink(path);
+    return __wrap_remove(path);
+}
+int __wrap_fseeko(FILE* f, off_t off, int whence) {
+    if (!g_streams.count(f)) return __real_fseeko(f, off, whence);
+    yield_point(SITE_FSEEK);
+    io.fseek_calls++;
+    int r = __real_fseeko(f, off, whence);
+    L.ev("fseek", (int64_t)off, whence, r);
+    return r;
+}
+off_t __wrap_ftello(FILE* f) {
+    if (!g_streams.count(f)) return __real_ftello(f);
+    off_t r = __real_ftello(f);
+    L.ev("ftell", (int64_t)r);
+    return r;
 }
 
 int __wrap_fstat(int fd, struct stat* st) {
